@@ -216,15 +216,9 @@ func (e *Exec) intrinsic(fn *ssa.Function, args []Value) (Value, bool) {
 	if fn.Pkg != nil && fn.Pkg.Pkg.Path() == e.cfg.ZZPath {
 		return e.zz(fn.Name(), args), true
 	}
-	if strings.HasPrefix(name, "(*go.uber.org/zap.SugaredLogger).") {
-		if fn.Name() == "Level" {
-			return IntV{T: e.P.BV(8, 0), Signed: true}, true
-		}
-		return nil, true
-	}
-	if name == "github.com/ipfs/go-log/v2.Logger" {
-		et := fn.Signature.Results().At(0).Type().(*types.Pointer).Elem()
-		return PtrV{Obj: e.newObj(e.safeZero(et))}, true
+	if pk := fnPkgPath(fn); pk != "" && isOpaquePkg(pk) {
+		// logging, tracing and metrics libraries: no-ops with opaque results
+		return e.opaqueResults(fn.Signature, args), true
 	}
 	if r, ok := e.syncIntrinsic(fn, name, args); ok {
 		return r, true
@@ -410,6 +404,72 @@ func (e *Exec) zz(name string, args []Value) Value {
 		return nil
 	}
 	panic(unsupported{"zzverif helper " + name})
+}
+
+var opaquePkgs = []string{"go.opentelemetry.io/", "go.uber.org/zap", "github.com/ipfs/go-log", "github.com/prometheus/"}
+
+func isOpaquePkg(path string) bool {
+	for _, p := range opaquePkgs {
+		if strings.HasPrefix(path, p) {
+			return true
+		}
+	}
+	return false
+}
+
+func fnPkgPath(fn *ssa.Function) string {
+	if fn.Pkg != nil {
+		return fn.Pkg.Pkg.Path()
+	}
+	if o := fn.Origin(); o != nil && o.Pkg != nil {
+		return o.Pkg.Pkg.Path()
+	}
+	if fn.Object() != nil && fn.Object().Pkg() != nil {
+		return fn.Object().Pkg().Path()
+	}
+	return ""
+}
+
+var opaqueType = types.NewNamed(types.NewTypeName(0, nil, "zzOpaque", nil), types.NewStruct(nil, nil), nil)
+
+// opaqueResults fabricates the results of a call into an opaque library: contexts are passed through,
+// interfaces and pointers are non-nil dummies, everything else is the zero value.
+func (e *Exec) opaqueResults(sig *types.Signature, args []Value) Value {
+	res := sig.Results()
+	mk := func(t types.Type) Value {
+		if n, ok := t.(*types.Named); ok && n.Obj().Pkg() != nil && n.Obj().Pkg().Path() == "context" && n.Obj().Name() == "Context" {
+			for _, a := range args {
+				if i, ok := a.(IfaceV); ok {
+					if _, ok := i.V.(*CtxV); ok {
+						return i
+					}
+				}
+			}
+		}
+		switch u := t.Underlying().(type) {
+		case *types.Interface:
+			if types.Identical(t, types.Universe.Lookup("error").Type()) {
+				return IfaceV{}
+			}
+			return IfaceV{T: opaqueType, V: OpaqueV{t.String()}}
+		case *types.Pointer:
+			return PtrV{Obj: e.newObj(e.safeZero(u.Elem()))}
+		case *types.Signature:
+			return NativeFn(func(a []Value) Value { return e.opaqueResults(u, a) })
+		}
+		return e.safeZero(t)
+	}
+	switch res.Len() {
+	case 0:
+		return nil
+	case 1:
+		return mk(res.At(0).Type())
+	}
+	tv := make(TupleV, res.Len())
+	for i := range tv {
+		tv[i] = mk(res.At(i).Type())
+	}
+	return tv
 }
 
 func (e *Exec) findMethod(t types.Type, pkg *types.Package, name string) *ssa.Function {
